@@ -118,6 +118,8 @@ def numbers(doc, secnumdepth=2):
                 else:
                     m.step('equation')
                     out.append(('equation', m.the('equation'), b.get('label')))
+            elif t == 'eqnarray' and b.get('star'):
+                pass
             elif t == 'eqnarray':
                 for row in b['rows']:
                     if row['nonumber']:
